@@ -302,7 +302,7 @@ sim::RunResult run(const Json& sc) {
   // this toolchain) and the supervisor builds the crash signature from the worker's stderr.
   for (auto& hj : sc["handlers"].arr()) {
     const std::string hname = hj.as_str();
-    ReadOpts ro; ro.flags = flags; ro.handler = handler_id(hname); ro.std_string = sc["std_string"].as_bool();
+    ReadOpts ro; ro.flags = flags; ro.handler = handler_id(hname);
     // every notification consumes input, and the input is passed over at most twice (bounds first): a generous linear bound
     ro.max_notifications = 16 * (long)bytes.size() + 4096;
     bump(st, "handler." + hname);
@@ -314,6 +314,18 @@ sim::RunResult run(const Json& sc) {
     fp = sim::fnv1a(a.outcome_key(), fp); fp = sim::fnv1a(&a.trace_hash, 8, fp); fp = sim::fnv1a(a.digest, fp);
     ts = sim::fnv1a(hname + "=" + a.status + ":" + skeleton(a.msg.compare(0, 6, "@/m.nl") == 0 ? a.msg.substr(6) : a.msg), ts);
     bump(st, "outcome." + a.status);
+    // the same bytes handed over as a std::string (its size, not its first NUL, ends the input): same notifications.  Run only
+    // after the guarded-pointer path has come back - an over-read faults there at once, here it would wander through the heap.
+    if (sc["std_string"].as_bool() && !sa.exited && a.status != "runaway") {
+      ReadOpts rs = ro; rs.std_string = true;
+      ReadOutcome as;
+      SimRun ss = sim_session(nofaults, 200000, [&] { as = read_nl_string(bytes, file, rs); });
+      strip_scratch(as);
+      bump(st, "std_string_overload_runs");
+      if (!ss.exited && (as.outcome_key() != a.outcome_key() || as.trace_hash != a.trace_hash || as.digest != a.digest))
+        v.set("PATH_MISMATCH", "std-string/" + hname, "same bytes: ReadNLString(NLStringRef(pointer, size)) gave [" + a.status + "] " + a.msg + " (" + std::to_string(a.notifications) +
+              " notifications), ReadNLString(std::string) gave [" + as.status + "] " + as.msg + " (" + std::to_string(as.notifications) + ")");
+    }
     if (sa.fired.count("ALLOC_CAP")) bump(st, "bad_alloc_by_cap");
     if (a.status == "ReadError" || a.status == "BinaryReadError") bump(st, a.located ? "rejected_with_located_error" : "rejected_unlocated");
     else if (a.status == "Error" || a.status == "UnsupportedError") bump(st, "rejected_unlocated");
